@@ -137,6 +137,22 @@ def extract(F, method, names, arg_binding=None, flags=None):
     return rel
 
 
+def ret_bool(ret, decisions):
+    """The boolean a path returns: a literal, or a value the path itself has branched on (`if finished {..} finished`)."""
+    r = str(ret)
+    if r in ('True', 'true'):
+        return True
+    if r in ('False', 'false'):
+        return False
+    val = None
+    for bb, desc, lab in decisions:
+        if desc == r and bool_label(lab) is not None:
+            val = bool_label(lab)
+        elif desc == 'Not(%s)' % r and bool_label(lab) is not None:
+            val = not bool_label(lab)
+    return val
+
+
 def run(ctx, R, tier):
     F = ctx.facts('default')
     names = state_names(F)
@@ -217,7 +233,7 @@ def run(ctx, R, tier):
                     ok = False
                     why = 'a path taking %s->%s does not pass the %s test; decisions: %s' % (a, b, kind, [d[1:] for d in dec])
                 # the edge must report the change (update returns true)
-                if ret not in ('True', 'true') and ret is not None and 'True' not in str(ret):
+                if ret_bool(ret, dec) is not True and ret is not None and 'True' not in str(ret):
                     ok = False
                     why = 'the edge %s->%s returns %s (the caller mirrors the state only on true)' % (a, b, ret)
             found += 1
@@ -227,7 +243,7 @@ def run(ctx, R, tier):
         okf = True
         for s in names:
             for to, ret, dec, calls in upd[s]:
-                if to == frozenset([s]) and str(ret) not in ('False', 'false'):
+                if to == frozenset([s]) and ret_bool(ret, dec) is not False:
                     okf = False
         R.check(okf, 'B.SM.guard', 'unchanged-returns-false', 'update returns true on a path that keeps the state',
                 detail='paths keeping the state return false')
